@@ -27,10 +27,11 @@ const (
 	KTag
 	KSimple
 	KFloat
+	KRaw // encode-only: B is emitted verbatim (used to splice deliberately lying / malformed bytes into a tree)
 )
 
 func (k Kind) String() string {
-	return [...]string{"uint", "nint", "bstr", "tstr", "array", "map", "tag", "simple", "float"}[k]
+	return [...]string{"uint", "nint", "bstr", "tstr", "array", "map", "tag", "simple", "float", "raw"}[k]
 }
 
 // Node is one CBOR data item together with the encoding choices used for it.
@@ -69,6 +70,7 @@ func Map(pairs ...[2]*Node) *Node { return &Node{Kind: KMap, Pairs: pairs} }
 func P(k, v *Node) [2]*Node        { return [2]*Node{k, v} }
 func Tag(n uint64, c *Node) *Node  { return &Node{Kind: KTag, U: n, Items: []*Node{c}} }
 func Simple(v uint8) *Node         { return &Node{Kind: KSimple, U: uint64(v)} }
+func Raw(b []byte) *Node           { return &Node{Kind: KRaw, B: append([]byte{}, b...)} }
 func Null() *Node                  { return Simple(22) }
 func Undef() *Node                 { return Simple(23) }
 func Bool(b bool) *Node {
@@ -251,6 +253,8 @@ func AppendEncode(out []byte, n *Node) []byte {
 			out = append(out, 0xff)
 		}
 		return out
+	case KRaw:
+		return append(out, n.B...)
 	case KTag:
 		out = appendHead(out, 6, n.U, n.HeadW)
 		return AppendEncode(out, n.Items[0])
@@ -677,5 +681,7 @@ func diag(sb *strings.Builder, n *Node) {
 		default:
 			fmt.Fprintf(sb, "f16(0x%04x)", n.U)
 		}
+	case KRaw:
+		fmt.Fprintf(sb, "raw'%s'", hex.EncodeToString(n.B))
 	}
 }
